@@ -1055,10 +1055,12 @@ class TeX(object):
         self.castRef()
 
         """
+        source = self.source(tokens)
         label = self.normalize(tokens)
         if not isinstance(label, str):
-            # active characters (e.g. `_' in math mode) are part of the name
-            label = label.source.strip()
+            # active characters (e.g. `_' in math mode) are part of the name;
+            # the name is what was written, without typographic substitutions
+            label = source.strip()
         self.ownerDocument.context.label(label)
         return label
 
@@ -1078,10 +1080,12 @@ class TeX(object):
         self.castLabel()
 
         """
+        source = self.source(tokens)
         ref = self.normalize(tokens)
         if not isinstance(ref, str):
-            # active characters (e.g. `_' in math mode) are part of the name
-            ref = ref.source.strip()
+            # active characters (e.g. `_' in math mode) are part of the name;
+            # the name is what was written, without typographic substitutions
+            ref = source.strip()
         self.ownerDocument.context.ref(kwargs['parentNode'], kwargs['name'], ref)
         return ref
 
